@@ -7,9 +7,11 @@ from __future__ import annotations
 
 import itertools
 import math
+import os
+import sys
 
 from .. import refmodel as R
-from ..core import Partial
+from ..core import Partial, REPO
 from ..explore import bfs
 
 PROPERTY = "C01"
@@ -329,6 +331,94 @@ def shard_scale(shard):
     return part
 
 
+# --------------------------------------------------------------------------------------------
+# abort: a search interrupted at every possible point, then read back
+# --------------------------------------------------------------------------------------------
+# "Whatever was searched before" includes a search that did not finish (Ctrl-C, an exception out of
+# the caller's loop body).  Environment deviation, bound 1: during one operation on a FRESH pattern
+# object an exception is raised at the k-th entry into a Python function of the package, for every
+# k; afterwards the same pattern object (whose memo may have been left half built) and a new equal
+# one must give the exact occurrences in every text of the pool.
+
+class _Abort(BaseException):
+    pass
+
+
+def _run_with_abort(fn, k, root):
+    seen = [0]
+
+    def tracer(frame, event, arg):
+        if event == "call" and frame.f_code.co_filename.startswith(root):
+            seen[0] += 1
+            if seen[0] == k:
+                sys.settrace(None)
+                raise _Abort()
+        return None
+
+    sys.settrace(tracer)
+    try:
+        fn()
+        return True, seen[0]
+    except _Abort:
+        return False, seen[0]
+    finally:
+        sys.settrace(None)
+
+
+ABORT_OPS = ("list", "contains", "count", "next2", "avoids_set")
+
+
+def _abort_op(op, P, T):
+    if op == "list":
+        list(P.occurrences_in(T))
+    elif op == "contains":
+        T.contains(P)
+    elif op == "count":
+        T.count_occurrences_of(P)
+    elif op == "next2":
+        g = P.occurrences_in(T)
+        next(g, None)
+        next(g, None)
+    elif op == "avoids_set":
+        T.avoids_set(iter([P]))
+
+
+def shard_abort(shard):
+    n, lo, hi = shard
+    Perm = _P()
+    part = Partial()
+    root = os.path.join(os.path.abspath(REPO), "permuta") + os.sep
+    old_hook = sys.unraisablehook
+    sys.unraisablehook = lambda unraisable: None
+    try:
+        for p in R.perms(n)[lo:hi]:
+            texts = pick_texts(p, 0)[:4]
+            refs = [R.occurrences(p, t) for t in texts]
+            for op in ABORT_OPS:
+                for ti, t in enumerate(texts[:2]):
+                    P, T = Perm(p), Perm(t)
+                    _, total = _run_with_abort(lambda: _abort_op(op, P, T), None, root)
+                    for k in range(1, total + 1):
+                        P, T = Perm(p), Perm(t)
+                        finished, _ = _run_with_abort(lambda: _abort_op(op, P, T), k, root)
+                        case = {"patt": p, "text": t, "op": op, "abort_at_call": k}
+                        part.add(1, 0 if finished else 1)
+                        for who, Q in (("same object", P), ("new equal object", Perm(p))):
+                            for t2, ref in zip(texts, refs):
+                                try:
+                                    got = list(Q.occurrences_in(Perm(t2)))
+                                except Exception as exc:  # noqa
+                                    got = repr(exc)
+                                if got != ref:
+                                    part.violation("abort", case, {"read_back_on": who, "text": t2,
+                                                                   "expected": ref, "got": got})
+                                    break
+                    part.bump("abort_points", total)
+    finally:
+        sys.unraisablehook = old_hook
+    return part
+
+
 def chunks(n, per):
     import math
     total = math.factorial(n)
@@ -558,6 +648,18 @@ def run(ctx, only=None):
                                            "minus one point (every position for sizes <= 40, else 9 "
                                            "positions), the text minus two points (sizes <= 12)"}
         ctx.section("scale", evaluations=ctx.evals - e0)
+    if want("abort"):
+        e0 = ctx.evals
+        top = 4 if quick else 5
+        shards = [(n, lo, hi) for n in range(1, top + 1) for lo, hi in chunks(n, 2 if n <= 4 else 4)]
+        ctx.pmap(shard_abort, shards)
+        ctx.bounds["abort"] = {"patterns": "all of length 1..%d, fresh object each time" % top,
+                               "operations": list(ABORT_OPS), "texts_aborted": 2, "texts_read_back": 4,
+                               "injection": "exception at the k-th entry into a Python function of "
+                                            "the package during the operation, every k",
+                               "injection_points": ctx.counters.get("abort_points", 0)}
+        ctx.section("abort", evaluations=ctx.evals - e0,
+                    injection_points=ctx.counters.get("abort_points", 0))
     if want("longer"):
         ctx.pmap(shard_longer, [(n,) for n in range(0, 5)])
     if want("multi"):
@@ -620,6 +722,22 @@ def replay(ctx, rec):
             got = repr(exc)
         if got != ref:
             part.violation("colour", case, {"expected": ref, "got": got})
+    elif sub == "abort":
+        p, t, op, k = tuple(case["patt"]), tuple(case["text"]), case["op"], case["abort_at_call"]
+        root = os.path.join(os.path.abspath(REPO), "permuta") + os.sep
+        P, T = Perm(p), Perm(t)
+        _run_with_abort(lambda: _abort_op(op, P, T), k, root)
+        for who, Q in (("same object", P), ("new equal object", Perm(p))):
+            for t2 in pick_texts(p, 0)[:4]:
+                ref = R.occurrences(p, t2)
+                try:
+                    got = list(Q.occurrences_in(Perm(t2)))
+                except Exception as exc:  # noqa
+                    got = repr(exc)
+                if got != ref:
+                    part.violation("abort", case, {"read_back_on": who, "text": t2,
+                                                   "expected": ref, "got": got})
+                    return
     elif sub == "history":
         model = HistoryModel(tuple(case["patt"]), [tuple(t) for t in case["texts"]],
                              case["via_standard"])
